@@ -15,11 +15,20 @@ import (
 // and one follow-up block on the real code.  Two other validators stay active and sign, so the
 // deliverability hypothesis holds and the pause guard lets messages through.
 
-var sysNames = []string{"upgrade-pause", "downtime", "evidence", "claim", "pause", "unpause", "activate", "unjail", "reset"}
-var sysPhase = []int{0, 1, 2, 3, 3, 3, 3, 4, 4}
+var sysNames = []string{"upgrade-pause", "downtime", "evidence", "claim", "pause", "unpause", "activate", "unjail", "reset", "rotate"}
+var sysPhase = []int{0, 1, 2, 3, 3, 3, 3, 4, 4, 3}
 var sysStarts = []string{"NEW", "ACTIVE", "INACTIVE", "PAUSED", "JAILED"}
 
 func sysValid(t []int) bool {
+	nrot := 0
+	for _, o := range t {
+		if o == 9 {
+			nrot++
+		}
+	}
+	if nrot > 1 {
+		return false
+	}
 	for i := 1; i < len(t); i++ {
 		pa, pb := sysPhase[t[i-1]], sysPhase[t[i]]
 		if pb < pa || (pb == pa && pa < 3) {
@@ -136,6 +145,12 @@ func runSys(x *hist, r *hx.Rng, g int, start string, t []int) {
 			x.ownerMsg("unpause", a)
 		case 6:
 			x.ownerMsg("activate", a)
+		case 9:
+			// address rotation: the later operations of the block follow the record to its new address
+			if _, isVal := x.prev.Vals[o[2]]; !isVal && !x.dead {
+				x.rotate(a, o[2])
+				a, o[2] = o[2], a
+			}
 		}
 	}
 	for _, op := range t {
